@@ -456,8 +456,10 @@ class CallMixin:
         v = args[0]
         if isinstance(v, (STuple, SLit)):
             return [(SLit('list', list(v.items)), st)]
-        if isinstance(v, SVal):      # list(opaque iterable): an opaque list
-            return [(SVal(self.fresh(st, 'opaque_list', Val)), st)]
+        if isinstance(v, SVal):      # list(opaque iterable): a real list - every traversal sees the same items
+            c = self.fresh(st, 'opaque_list', Val)
+            self.stable_lists.add(c.get_id())
+            return [(SVal(c), st)]
         raise Unsupported('list(%r)' % (v,))
 
     def bi_super(self, args, kwargs, st, node):
@@ -470,6 +472,17 @@ class CallMixin:
         if isinstance(v, SRef) and v.cls.pyclass:
             return [(SClass(v.cls.pyclass), st)]
         return [(SClass('object'), st)]
+
+    def bi_hasattr(self, args, kwargs, st, node):
+        obj = args[0]
+        if isinstance(obj, SVal):
+            return [(SBool(self.fresh(st, 'hasattr', z3.BoolSort())), st)]
+        raise Unsupported('hasattr(%r)' % (obj,))
+
+    def bi_iter(self, args, kwargs, st, node):
+        if isinstance(args[0], SVal):
+            return [(SVal(self.fresh(st, 'opaque_iter', Val)), st)]
+        raise Unsupported('iter(%r)' % (args[0],))
 
     def bi_hash(self, args, kwargs, st, node):
         self.assumptions.add('opaque values are hashable (hash() neither raises nor has side effects)')
@@ -690,6 +703,19 @@ class CallMixin:
         self.hstore(s, l, 'elems', z3.Store(self.hload(s, l, 'elems'), n, self.coerce(s, args[0], l.cls.e)))
         self.hstore(s, l, 'len', n + 1)
         return [(SNone(), s)]
+
+    def lm_extend(self, l, args, kwargs, st, node):
+        src = args[0]
+        if not (isinstance(src, SVal) and src.t.get_id() in self.stable_lists):
+            raise Unsupported('list.extend with %r' % (src,))
+        s = st.copy()
+        n = self.hload(s, l, 'len')
+        m = self.f_oseq_len(src.t)
+        j = z3.Int(s.fresh.name('je'))
+        old = self.hload(s, l, 'elems')
+        self.hstore(s, l, 'elems', z3.Lambda([j], z3.If(z3.And(j >= n, j < n + m), self.f_oseq_item(src.t, j - n), z3.Select(old, j))))
+        self.hstore(s, l, 'len', n + m)
+        return [(SNone(), s.assume(m >= 0))]
 
     def lm_pop(self, l, args, kwargs, st, node):
         n = self.hload(st, l, 'len')
